@@ -60,11 +60,24 @@ Fixpoint do_history (ok : step -> bool -> bool) (p : list step) (m : machine) (h
     enc_outcome (m', code, tr) :: do_history ok p m' r
   end.
 
-(* fid 1: (pipeline history) -> list of outcomes, starting from a fresh machine *)
+(* a history mixing several pipelines on ONE machine: each call is
+   (index of the pipeline, call code) *)
+Fixpoint do_mixed (pls : list value) (m : machine) (h : list value) : list value :=
+  match h with
+  | [] => []
+  | c :: r =>
+    let pv := nth (Z.to_nat (as_z (vnth 0 c))) pls (VL []) in
+    let '(m', code, tr) := do_call (step_ok_of (ok_table pv)) (dec_pipeline pv) m (as_z (vnth 1 c)) in
+    enc_outcome (m', code, tr) :: do_mixed pls m' r
+  end.
+
+(* fid 1: (pipeline history) -> list of outcomes, starting from a fresh machine
+   fid 2: (pipelines, history of (pipeline index, call)) -> list of outcomes, one machine *)
 Definition dispatch (fid : Z) (v : value) : value :=
   match fid with
   | 1 => let p := dec_pipeline (vnth 0 v) in
          VL (do_history (step_ok_of (ok_table (vnth 0 v))) p machine0 (as_zs (vnth 1 v)))
+  | 2 => VL (do_mixed (as_l (vnth 0 v)) machine0 (as_l (vnth 1 v)))
   | _ => VL [VZ (-1)]
   end.
 
